@@ -12,7 +12,8 @@ From Errdef Require Import Base.Str Base.Outcome Model.Core Model.Convert Model.
    ErrUnknownField, lenient mode keeping the decoded value, causes in order; for a cause: errdef first, only
    ErrInternal propagates, the two placeholder fallbacks, nested causes in order, a registered definition named by
    the message then a registered sentinel when there are no nested causes, else an UnknownCauseError - in this
-   order and with nothing else between them (Gen/UnmarshalSrc.v lists them one by one). *)
+   order and with nothing else between them (Gen/UnmarshalSrc.v lists them one by one); likewise the five steps
+   of tryConvertFieldValue and the JSON route of tryConvertViaJSON (which target kinds go through JSON). *)
 Theorem C10_unmarshal_source_shape_recognised : unmarshal_source_ok = true.
 Proof. exact unmarshal_source_shape. Qed.
 Print Assumptions C10_unmarshal_source_shape_recognised.
